@@ -12,7 +12,7 @@ from .c04 import model
 from .indexfx import index_effects
 
 PROP = "C12"
-FLOORS = {"C12.R1": 20, "C12.R2": 20, "C12.R3": 6}
+FLOORS = {"C12.R1": 20, "C12.R2": 20, "C12.R3": 6, "C12.R4": 1}
 META = {
     "explanation": "Every concrete reference/expression class resolves __reduce__ to a definition returning (type(self), (fields...)) "
                    "whose i-th element is the declared field that the class's __cinit__ derives from its i-th parameter, on every "
@@ -151,6 +151,61 @@ def _manager(col, rule="C12.R3"):
             "RefCount is a plain dict subclass without pickling hooks (counts survive)", str(hooks))
 
 
+def _default_containers(col, rule="C12.R4"):
+    """The containers the manager creates by default (ref()/refattr()/newenv() without a container) are part of the
+    pickled state.  A class whose __init__ establishes state that default pickling does not carry -- `self.__dict__ = self`
+    (pickle restores a dict subclass's items and its __dict__ separately and never calls __init__) -- must define its own
+    reduction that goes through the constructor, or a __setstate__ that re-establishes it."""
+    repo = col.repo
+    mgr = repo.cls("Manager")
+    defaults = set()
+    for name, fn in mgr.methods.items():
+        params = set(A.params(fn))
+        for n in A.walk(fn):
+            if isinstance(n, ast.Assign) and isinstance(n.value, ast.Call) and not n.value.args and not n.value.keywords:
+                cn = A.dotted(n.value.func)
+                if cn and cn.split(".")[-1] in repo.classes and any(isinstance(t, ast.Name) and t.id in params for t in n.targets):
+                    defaults.add(cn.split(".")[-1])
+    if not defaults:
+        raise AnalysisError("Manager: no default container class found (ref/refattr/newenv) -- cannot decide")
+    for cn in sorted(defaults):
+        c = repo.classes[cn]
+        init = repo.lookup(c, "__init__")
+        rebinds = []
+        if init is not None:
+            for n in A.walk(init[1]):
+                if isinstance(n, ast.Assign):
+                    for t in n.targets:
+                        if isinstance(t, ast.Attribute) and isinstance(t.value, ast.Name) and t.value.id == "self" and t.attr == "__dict__":
+                            rebinds.append(n)
+        if not rebinds:
+            col.ok(rule, f"{cn}#constructor-state-survives-pickling", c.module.loc(c.node),
+                   "the default container has no constructor-established state that default pickling would lose", "")
+            continue
+        how = ""
+        ok = False
+        for meth in ("__reduce__", "__reduce_ex__"):
+            r = repo.lookup(c, meth)
+            if r is not None and r[0].module.name.startswith("xdeps"):
+                sx = sctx(repo, r[0].name, meth)
+                ok = all(r_.value[:1] == ("tuple",) and r_.value[1] and r_.value[1][0] in CTORS + (("glob", cn),)
+                         and (len(r_.value[1]) < 3 or r_.value[1][2] == ("const", "None")) for r_ in sx.of_kind("return")) and bool(sx.of_kind("return"))
+                how = f"{meth} rebuilds through the constructor" if ok else f"{meth} does not rebuild through the constructor with no separate state"
+        if not ok:
+            r = repo.lookup(c, "__setstate__")
+            if r is not None:
+                sx = sctx(repo, r[0].name, "__setstate__")
+                st = [e for e in sx.of_kind("store") if e.target == ("attr", S.SELF, "__dict__") and e.value == S.SELF]
+                ok = bool(st) and sx.cfg.must_pass(sx.cfg.ENTRY, sx.cfg.EXIT, [e.nid for e in st])
+                how = "__setstate__ re-establishes it" if ok else "__setstate__ does not re-establish it on every path"
+        col.add(rule, f"{cn}#constructor-state-survives-pickling", ok, c.module.loc(rebinds[0]),
+                f"{cn} (the manager's default container) sets `self.__dict__ = self` in __init__; unpickling a dict subclass restores "
+                "items and __dict__ separately without calling __init__, so it defines a reduction through its constructor (or a "
+                "__setstate__ restoring the aliasing) -- otherwise attribute and item access diverge in the restored manager",
+                how or "no __reduce__/__setstate__: default pickling")
+
+
 def check(col: Collector):
     _reduce_vs_cinit(col)
     _manager(col)
+    _default_containers(col)
